@@ -478,14 +478,18 @@ fn bits_eq(x: &[f64], y: &[f64]) -> bool {
 }
 
 /// "The parameters have stopped changing" between two consecutive reference iterates: every coordinate
-/// changed by at most 16·ε_mach·max(1,|x|). DESIGN.md states ε_mach·max(1,|x|); the factor 16 absorbs that the
+/// changed by at most 16·ε_mach·|x| (relative; DESIGN.md wrote ε_mach·max(1,|x|), whose absolute floor of 1 would
+/// accept an optimizer that stops on tiny-scale problems while the parameters still move by tens of percent —
+/// seeded change C10-r2-1). The factor 16 absorbs that the
 /// reference and the library differ in the last bits, so the step at which an update falls below one ulp
 /// may differ by a step or two between them (updates shrink geometrically near a fixed point).
 const STOP_FACTOR: f64 = 16.0;
 fn stopped(prev: &[f64], cur: &[f64]) -> f64 {
     let mut worst = 0.0f64;
     for (a, b) in prev.iter().zip(cur) {
-        let bound = STOP_FACTOR * f64::EPSILON * b.abs().max(1.0);
+        // relative to the parameter itself (no absolute floor of 1): parameters of size 1e-20 that move by
+        // 10 % per step have not "stopped changing"; 1e-300 only covers the subnormal range
+        let bound = STOP_FACTOR * f64::EPSILON * a.abs().max(b.abs()) + 1e-300;
         worst = worst.max((a - b).abs() / bound);
     }
     worst
@@ -594,6 +598,22 @@ fn check_traj(ctx: &mut Ctx, sub: &str, c: &TrajCase) -> R {
             let shd = shadow_dev(k);
             if dev > 1e-3 * tol && shd > 0.0 {
                 ctx.worst("rounding model: library deviation / shadow deviation", dev / shd);
+            }
+            // The absolute part of the tolerance (1e-10·1) makes the comparison above vacuous for problems whose
+            // parameters are tiny; an optimizer that stops there although the parameters still move by a
+            // visible *relative* amount is caught directly: the library returned the same bits for budgets k−1
+            // and k while the reference moved by more than 1e-6 relative in some coordinate.
+            if bits_eq(&l, &ls[k - 1]) {
+                let moving = xs[k - 1].iter().zip(&xs[k]).any(|(a, b)| (a - b).abs() > 1e-6 * a.abs().max(b.abs()) && a.abs().max(b.abs()) > 1e-290);
+                if moving && accepted_stop.is_none() {
+                    return fail(
+                        format!("C10/early-stop/{}", c.opt.family()),
+                        format!(
+                            "{:?} on {} from {:?}: budget {} returned {:?}, bit-identical to the result for budget {} — the optimizer stopped although the parameters were still changing by more than 1e-6 relative: reference iterates x_{} = {:?}, x_{} = {:?}",
+                            c.opt, c.obj.name(), c.x0, k, l, k - 1, k - 1, xs[k - 1], k, xs[k]
+                        ),
+                    );
+                }
             }
             if !stationary_seen && bits_eq(&l, &ls[k - 1]) {
                 // the library did not move between budgets k-1 and k (null step or early stop) and is still
@@ -1705,6 +1725,29 @@ fn enumerated_early() -> Vec<TrajCase> {
             x0: vec![1.0],
             kmax: 8,
         },
+        // tiny absolute scale: every step changes the parameter by 50 % (SGD) / about 25 % (Adam) although the
+        // absolute change is far below machine epsilon
+        TrajCase {
+            class: "tiny-scale/sgd".into(),
+            opt: Opt::Sgd { step: 0.25, momentum: 0.0, nesterov: false },
+            obj: Obj::Quad { q: vec![2.0], b: vec![0.0] }, // x²: x <- x/2
+            x0: vec![2f64.powi(-70)],
+            kmax: 8,
+        },
+        TrajCase {
+            class: "tiny-scale/sgd-momentum".into(),
+            opt: Opt::Sgd { step: 0.25, momentum: 0.5, nesterov: true },
+            obj: Obj::Quad { q: vec![2.0, 0.0, 0.0, 1.0], b: vec![0.0, 0.0] },
+            x0: vec![2f64.powi(-80), -3.0 * 2f64.powi(-75)],
+            kmax: 8,
+        },
+        TrajCase {
+            class: "tiny-scale/adam".into(),
+            opt: Opt::Adam { step: 2f64.powi(-70), beta1: 0.5, beta2: 0.5, eps: 1e-8 },
+            obj: Obj::Quad { q: vec![2f64.powi(70)], b: vec![0.0] },
+            x0: vec![2f64.powi(-68)],
+            kmax: 8,
+        },
         TrajCase {
             class: "osc/adam-flip".into(),
             opt: Opt::Adam { step: 0.5, beta1: 0.5, beta2: 0.5, eps: 1e-8 },
@@ -1728,7 +1771,7 @@ Distinct by the hash of the whole serialised case."
     ctx.assumptions = vec![
         "the reference recurrences are Kingma & Ba Algorithm 1 (m-hat/(sqrt(v-hat)+eps)), x - eta g, classical momentum u <- mu u + eta g, x <- x - u, and Nesterov with the gradient at x - mu u".into(),
         "budgets are compared only on the prefix of the trajectory on which the reference stays finite (< 1e100) and six shadow trajectories (objective data and iterates perturbed by 1e-14 relative, two with systematic and four with pseudo-random signs) stay within 3% of the tolerance (chaotic or diverging continuations are outside what a 1e-10 comparison can decide)".into(),
-        "an early stop is accepted when the reference iterates changed by at most 16 eps max(1,|x|) per coordinate at the stopping step".into(),
+        "an early stop is accepted when the reference iterates changed by at most 16 eps |x| per coordinate (relative) at the stopping step".into(),
         "objectives avoid `f64 / Var` and powi(0) of the reverse crate (wrong / NaN derivative weights in reverse 0.2.2, a dependency, not the library under test)".into(),
         "LM linear-reaches-ls: LM::new(1e-12, 1e-12, 1e-2), budget 100 steps, cond(J^T J) <= 1e6 by the oracle's Jacobi eigenvalues; covariance skipped when cond(J^T J) > 1e10 or the residual sum of squares is dominated by rounding".into(),
     ];
